@@ -91,6 +91,7 @@ func C06(c *Ctx) {
 	c.R.Rule("C06-R1", "E1", "no write through any argument of Step/Walk nor to a package-level variable", 10)
 	c.R.Rule("C06-R2", "E1", "returned states' bindings maps never alias the given state's bindings map", 3)
 	c.R.Rule("C06-R4", "E1", "the action wrapper (FuncAction.Exec) writes nothing it is given and no package-level state", 2)
+	c.shareRule("C18", "C18-R6", "C06-R6", "a native action or guard works on its own copy of the given bindings (also with the permanent-bindings feature switched off)")
 	c.R.Rule("C06-R5", "E1", "no script runtime outlives an execution (the engine keeps no state in one)", 3)
 	c.R.Rule("C06-R3", "E1", "ECMAScript actions and guards see copies: no caller data reachable from values given to the script runtime", 1)
 	a, step, walk := c.stepWalkAnalysis()
